@@ -311,8 +311,8 @@ Print Assumptions C05_node_btree1_leaf_strict.
 
 (* after ANY successful write_index (WriteToFile of the chunk index): the file from the returned address on decodes to the
    SORTED entries *)
-Theorem C05_node_btree1_written : forall dim es f eof f' eof' addr,
-  write_index dim es f eof = Ok (f', eof', addr) ->
+Theorem C05_node_btree1_written : forall rep dim es f eof f' eof' addr,
+  write_index rep dim es f eof = Ok (f', eof', addr) ->
   Forall (fun e => entry_ok dim e = true) es -> N.of_nat (length es) < 65536 ->
   exists suf,
     skipn (N.to_nat addr) f' = serialize_leaf dim (sort_entries es) ++ suf /\
@@ -322,8 +322,8 @@ Theorem C05_node_btree1_written : forall dim es f eof f' eof' addr,
 Proof. exact spec_btree1_written. Qed.
 Print Assumptions C05_node_btree1_written.
 
-Theorem C05_node_btree1_written_strict : forall dim es f eof f' eof' addr,
-  write_index dim es f eof = Ok (f', eof', addr) ->
+Theorem C05_node_btree1_written_strict : forall rep dim es f eof f' eof' addr,
+  write_index rep dim es f eof = Ok (f', eof', addr) ->
   Forall (fun e => entry_ok dim e = true) es -> N.of_nat (length es) < 65536 ->
   exists suf,
     skipn (N.to_nat addr) f' = serialize_leaf dim (sort_entries es) ++ suf /\
